@@ -155,3 +155,20 @@ pub proof fn lemma_take_step_refs_t(s: Seq<Transaction>, i: int)
     ensures trade_refs(s.take(i + 1)) == (if is_trade(s[i]) { trade_refs(s.take(i)).push(&s[i]) } else { trade_refs(s.take(i)) })
 { assert(s.take(i + 1).drop_last() =~= s.take(i)); }
 } // verus!
+verus! {
+use crate::models::*;
+use crate::cgt_format::*;
+// ---- SUMMARY rows: one row per tax year showing the year, the number of disposals, net gain, total gain, total loss, gross proceeds,
+//      exemption and taxable gain = max(0, net gain - exemption), each as a pound figure of the computed value
+pub open spec fn taxable_of(y: TaxYearSummary) -> real { if y.net_gain.v() - y.exempt_amount.v() >= 0real { y.net_gain.v() - y.exempt_amount.v() } else { 0real } }
+pub open spec fn year_row(y: TaxYearSummary) -> Rec {
+    seq![trim_end_of(render(seq![
+        FmtPiece::SpecArg(tax_year_str(y.period.0 as int)), FmtPiece::SpecArg(int_str(y.disposals@.len() as int)),
+        FmtPiece::SpecArg(gbp_str(y.net_gain.v())), FmtPiece::SpecArg(gbp_str(y.total_gain.v())), FmtPiece::SpecArg(gbp_str(y.total_loss.v())),
+        FmtPiece::SpecArg(gbp_str(rsum(y.disposals@, f_gross()))), FmtPiece::SpecArg(gbp_str(y.exempt_amount.v())), FmtPiece::SpecArg(gbp_str(taxable_of(y)))]))]
+}
+pub proof fn lemma_contains_prefix<T>(a: Seq<T>, b: Seq<T>, x: T)
+    requires is_prefix(a, b), a.contains(x) ensures b.contains(x)
+{ let k = choose|k: int| 0 <= k < a.len() && a[k] == x; assert(b.take(a.len() as int)[k] == b[k]); }
+pub proof fn lemma_prefix_add<T>(a: Seq<T>, b: Seq<T>) ensures is_prefix(a, a + b) { assert((a + b).take(a.len() as int) =~= a); }
+} // verus!
